@@ -21,7 +21,7 @@ BENIGN = {  # benign mutant -> checks that must stay silent
     "benign-C08-raw-sign-refactor": ["C08"], "benign-C06-step2-locals": ["C06", "C03"], "benign-C17-from-repr-vartime": ["C17"],
     "benign-C13-rename-reorder": ["C13"], "benign-C16-scalar-visitor": ["C16"], "benign-C03-step1": ["C03", "C06"],
     "C04-benign-mulbase-pow2": ["C04"], "benign-C07-ladder-while-let": ["C07"], "benign-C10-select-enumerate": ["C10", "C11"],
-    "benign-C13-explicit-loops": ["C13"], "benign-C03-double-reassoc": ["C03"], "benign-C07-ladder-step-commute": ["C07"], "benign-C06-decode-reassoc": ["C06"],
+    "benign-C13-explicit-loops": ["C13"], "benign-C03-double-reassoc": ["C03"], "benign-C07-ladder-step-commute": ["C07"], "benign-C06-decode-reassoc": ["C06"], "benign-C09-recompute-operators": ["C09"], "benign-C02-mont-mul-as-montgomery": ["C02"],
 }
 WORKERS = 4
 
